@@ -8,6 +8,7 @@ package quiesce
 import (
 	"bytes"
 	"runtime"
+	"runtime/debug"
 	"strconv"
 	"time"
 )
@@ -116,6 +117,12 @@ type Stats struct {
 // budget is exhausted. It returns the quiescent snapshot and true, or the last
 // snapshot and false.
 func Wait(self int, budget time.Duration, st *Stats) (Snapshot, bool) {
+	// No GC cycle may START while we look: a goroutine that wants to start one parks on a runtime semaphore that
+	// the dump itself holds and would look blocked — possibly in two consecutive snapshots. Callers switch the
+	// collector off for whole batches of cases; this is the safety net for callers that did not.
+	if old := debug.SetGCPercent(-1); old != -1 {
+		defer debug.SetGCPercent(old)
+	}
 	deadline := time.Now().Add(budget)
 	spins := 0
 	var prev *Snapshot
